@@ -118,7 +118,21 @@ class FixedPoint(core.Surface):
             r1 = pycfmodel.parse(copy.deepcopy(x["template"])).resolve(copy.deepcopy(x["extra"]))
             r2 = r1.resolve(copy.deepcopy(x["extra"]))
             d2 = r2.model_dump()
-            return {"equal": r1 == r2 and r1.model_dump() == d2,
+            same = r1 == r2 and r1.model_dump() == d2
+            # ... and still equal once the resolved model has been put to use: evaluating the IAM conditions of r1 builds their
+            # evaluators lazily, which is not part of the value (seeded change C03-r5m2 compared the private cache too)
+            for res in r1.Resources.values():
+                try:
+                    conds = list(res.all_statement_conditions)
+                except Exception:
+                    conds = []
+                for c in conds:
+                    try:
+                        c({})
+                    except Exception:
+                        pass
+            same = same and r1 == r2 and r2 == r1 and r1 == r1.resolve(copy.deepcopy(x["extra"]))
+            return {"equal": same,
                     "second": {"Conditions": resgen.to_wire(d2["Conditions"]), "Resources": resgen.to_wire(d2["Resources"])}}
         return core.impl_call(run)
 
